@@ -50,23 +50,43 @@ def check(ctx):
     sb = prog.async_body(SYNC)
     regs = sb.calls_to(REG)
     ctx.floor(R1, "register_account calls in synchronize", len(regs), 1)
+    # synchronize is EVALUATED over (account URL stored?) x (binding: none | same | changed) x (key changed?) x (contacts changed?): which
+    # requests it starts, in which order. When the code cannot be evaluated the shape rules below decide instead.
+    sync_tab = sync_table(prog, sb)
+    sync_eval = all(v[0] == "return" for v in sync_tab.values())
+    ctx.notes.append("Account::synchronize evaluated on %d/24 combinations" % sum(1 for v in sync_tab.values() if v[0] == "return"))
+    if sync_eval:
+        for (url, ext, key, ct), (kind, ev) in sorted(sync_tab.items()):
+            if not url or ext == "changed":
+                want = ["create:register_account", "poll:register_account"]
+            else:
+                want = (["create:update_account_key", "poll:update_account_key"] if key else []) + (["create:update_account_contacts", "poll:update_account_contacts"] if ct else [])
+            got = [e for e in ev]
+            # creations may be interleaved differently as long as each request is awaited before the next one is created
+            if url and ext != "changed" and "register_account" not in " ".join(got):
+                continue        # update rows: reported under R2 below
+            ctx.require(R1, got == want, "%s:%s" % (sb.file, sb.line),
+                        "url %s, binding %s, key %s, contacts %s -> %s (expected %s)" % ("stored" if url else "empty", ext, "changed" if key else "same", "changed" if ct else "same", got, want),
+                        [SYNC, "sync-table", str(url), ext, str(key), str(ct)])
     ie = [c for c in sb.calls_to("alloc::string::String::is_empty") if (ACCEP, "account_url") in arg_origins(c, 0).fields]
-    ctx.floor(R1, "account_url.is_empty() test", len(ie), 1)
+    if not sync_eval:
+        ctx.floor(R1, "account_url.is_empty() test", len(ie), 1)
     empty_edges = []
     for c in ie:
         t, f = call_true_false_edges(sb, c)
         empty_edges += t
     eab = [c for c in sb.calls if c.fn in ("core::cmp::PartialEq::ne", "core::cmp::PartialEq::eq") and c.bb in sb.live_blocks()
            and (ACCEP, "external_account_hash") in (arg_origins(c, 0).fields | arg_origins(c, 1).fields)]
-    ctx.floor(R1, "external_account_hash comparison", len(eab), 1)
+    if not sync_eval:
+        ctx.floor(R1, "external_account_hash comparison", len(eab), 1)
     changed_edges = []
-    for c in eab:
+    for c in ([] if sync_eval else eab):
         t, f = call_true_false_edges(sb, c)
         changed_edges += t if c.fn.endswith("::ne") else f
         other = arg_origins(c, 0).calls + arg_origins(c, 1).calls
         ctx.require(R1, any(x.is_("acmed::account::hash_external_account") for x in other), c.where(), "the stored binding fingerprint is compared with the configured binding's", [SYNC, "eab-compare"])
     good, hit = unreachable_without(sb, [c.bb for c in regs], removed_edges=empty_edges + changed_edges)
-    ctx.require(R1, bool(empty_edges) and bool(changed_edges) and good, regs[0].where() if regs else "-",
+    ctx.require(R1, sync_eval or (bool(empty_edges) and bool(changed_edges) and good), regs[0].where() if regs else "-",
                 "in synchronize, registration is reached only when account_url is empty or the external binding changed", [SYNC, "register-condition"])
     for key in (UPC, UPK):
         b = prog.async_body(key)
@@ -92,45 +112,63 @@ def check(ctx):
                     src = origins(b, st["rv"]["place"])
                     ctx.require(R1, any(x.is_("acmed::acme_proto::structs::error::HttpApiError::get_acme_type") for x in src.calls), where(b, i),
                                 "the error type examined is the problem document's ACME type", [key, "error-type-source"])
+        # the same test written as `err.is_acme_err(AcmeError::AccountDoesNotExist)`
+        for c in b.calls:
+            if c.bb in b.live_blocks() and (c.name or "").endswith("::is_acme_err") and len(c.args) > 1:
+                cv = {x.get("variant") or str(x.get("pp", "")).rsplit("::", 1)[-1] for x in arg_origins(c, 1).consts}
+                t_, f_ = call_true_false_edges(b, c)
+                if cv == {"AccountDoesNotExist"}:
+                    arms += t_
+                elif {x.bb for x in rs} & b.reachable([tg for _, tg in t_]):
+                    ctx.fail(R1, c.where(), "%s re-registers the account on ACME error %s" % (key.rsplit("::", 1)[1], sorted(cv)), [key, "reregister-on", ",".join(sorted(cv))])
         good, hit = unreachable_without(b, [c.bb for c in rs], removed_edges=arms)
         ctx.require(R1, bool(arms) and good, rs[0].where() if rs else "-", "%s re-registers only on accountDoesNotExist" % key.rsplit("::", 1)[1], [key, "reregister-condition"])
 
     R2 = ctx.rule("R2", "in synchronize the contact update (signed with the current key) is reached only after the key roll-over or when the key is unchanged")
     upc = sb.calls_to(UPC)
     upk_polls = polls(sb, UPK)
-    ctx.floor(R2, "update_account_contacts call in synchronize", len(upc), 1)
-    ctx.floor(R2, "update_account_key await in synchronize", len(upk_polls), 1)
-    # the key-changed test: a bool computed from hash_key(..) and the endpoint's stored key_hash (`key_changed` today), found by
-    # provenance; `==`/`!=` orientation is read off the comparison
-    def cmp_edges(field, fn_name):
-        changed, unchanged = [], []
-        def pred(sl):
-            return (ACCEP, field) in sl.fields and any(x.is_(fn_name) for x in sl.calls) and not any((ACCEP, f2) in sl.fields for f2 in ("key_hash", "contacts_hash") if f2 != field)
-        tr, fl = flag_switches(sb, pred)
-        for (sbb, t), (_, f) in zip(tr, fl):
-            sl = origins(sb, sb.term(sbb)["discr"])
-            ne = any(v.endswith("::ne") for v in sl.via) or "binop:Ne" in sl.via
-            eq = any(v.endswith("::eq") for v in sl.via) or "binop:Eq" in sl.via
-            if ne == eq:
+    if sync_eval:
+        for (url, ext, key, ct), (kind, ev) in sorted(sync_tab.items()):
+            if not (url and ext != "changed"):
                 continue
-            changed.append((sbb, t if ne else f))
-            unchanged.append((sbb, f if ne else t))
-        return changed, unchanged
-    changed, unchanged_edges = cmp_edges("key_hash", "acmed::account::hash_key")
-    ctx.require(R2, bool(changed), "%s:%s" % (sb.file, sb.line), "synchronize tests hash_key(current_key) against endpoint.key_hash", [SYNC, "key-changed-def"])
-    r = sb.reachable_flags(0, removed_nodes=[p.bb for p in upk_polls], removed_edges=unchanged_edges)
-    bad = [c for c in upc if c.bb in r]
-    ctx.require(R2, bool(unchanged_edges) and not bad, bad[0].where() if bad else (upc[0].where() if upc else "-"),
-                "every path to update_account_contacts passes update_account_key's completion or the key-unchanged edge (the CA must know the signing key)",
-                [SYNC, "contacts-before-key"])
-    # the key update itself is conditional on key_changed
-    upk = sb.calls_to(UPK)
-    good, hit = unreachable_without(sb, [c.bb for c in upk], removed_edges=changed)
-    ctx.require(R2, bool(changed) and good, upk[0].where() if upk else "-", "update_account_key runs only when the key fingerprint changed (one update per changed item)", [SYNC, "key-update-condition"])
-    changed_c, _u = cmp_edges("contacts_hash", "acmed::account::hash_contacts")
-    if changed_c:
-        good, hit = unreachable_without(sb, [c.bb for c in upc], removed_edges=changed_c)
-        ctx.require(R2, good, upc[0].where() if upc else "-", "update_account_contacts runs only when the contacts fingerprint changed", [SYNC, "contacts-update-condition"])
+            want = (["create:update_account_key", "poll:update_account_key"] if key else []) + (["create:update_account_contacts", "poll:update_account_contacts"] if ct else [])
+            ctx.require(R2, list(ev) == want, "%s:%s" % (sb.file, sb.line),
+                        "url stored, binding %s, key %s, contacts %s -> %s (expected %s: one update per changed item, the key roll-over completed first)"
+                        % (ext, "changed" if key else "same", "changed" if ct else "same", list(ev), want), [SYNC, "sync-table", str(url), ext, str(key), str(ct)])
+    else:
+        ctx.floor(R2, "update_account_contacts call in synchronize", len(upc), 1)
+        ctx.floor(R2, "update_account_key await in synchronize", len(upk_polls), 1)
+        # the key-changed test: a bool computed from hash_key(..) and the endpoint's stored key_hash (`key_changed` today), found by
+        # provenance; `==`/`!=` orientation is read off the comparison
+        def cmp_edges(field, fn_name):
+            changed, unchanged = [], []
+            def pred(sl):
+                return (ACCEP, field) in sl.fields and any(x.is_(fn_name) for x in sl.calls) and not any((ACCEP, f2) in sl.fields for f2 in ("key_hash", "contacts_hash") if f2 != field)
+            tr, fl = flag_switches(sb, pred)
+            for (sbb, t), (_, f) in zip(tr, fl):
+                sl = origins(sb, sb.term(sbb)["discr"])
+                ne = any(v.endswith("::ne") for v in sl.via) or "binop:Ne" in sl.via
+                eq = any(v.endswith("::eq") for v in sl.via) or "binop:Eq" in sl.via
+                if ne == eq:
+                    continue
+                changed.append((sbb, t if ne else f))
+                unchanged.append((sbb, f if ne else t))
+            return changed, unchanged
+        changed, unchanged_edges = cmp_edges("key_hash", "acmed::account::hash_key")
+        ctx.require(R2, bool(changed), "%s:%s" % (sb.file, sb.line), "synchronize tests hash_key(current_key) against endpoint.key_hash", [SYNC, "key-changed-def"])
+        r = sb.reachable_flags(0, removed_nodes=[p.bb for p in upk_polls], removed_edges=unchanged_edges)
+        bad = [c for c in upc if c.bb in r]
+        ctx.require(R2, bool(unchanged_edges) and not bad, bad[0].where() if bad else (upc[0].where() if upc else "-"),
+                    "every path to update_account_contacts passes update_account_key's completion or the key-unchanged edge (the CA must know the signing key)",
+                    [SYNC, "contacts-before-key"])
+        # the key update itself is conditional on key_changed
+        upk = sb.calls_to(UPK)
+        good, hit = unreachable_without(sb, [c.bb for c in upk], removed_edges=changed)
+        ctx.require(R2, bool(changed) and good, upk[0].where() if upk else "-", "update_account_key runs only when the key fingerprint changed (one update per changed item)", [SYNC, "key-update-condition"])
+        changed_c, _u = cmp_edges("contacts_hash", "acmed::account::hash_contacts")
+        if changed_c:
+            good, hit = unreachable_without(sb, [c.bb for c in upc], removed_edges=changed_c)
+            ctx.require(R2, good, upc[0].where() if upc else "-", "update_account_contacts runs only when the contacts fingerprint changed", [SYNC, "contacts-update-condition"])
 
     R3 = ctx.rule("R3", "key roll-over: old key = get_past_key(endpoint.key_hash); oldKey = its JWK; account = stored URL; posted to keyChange")
     rollover_key_rule(ctx, R3)
@@ -369,3 +407,39 @@ def rollover_key_rule(ctx, R3):
     ctx.require(R3, ok_ and (ACC, "past_keys") in origins(gpk, {"l": 0, "p": []}, through=True).fields, "%s:%s" % (gpk.file, gpk.line),
                 "get_past_key returns the superseded key whose fingerprint equals the argument", [ACC + "::get_past_key", "match"])
 
+
+
+def sync_table(prog, sb):
+    """Account::synchronize evaluated for 2 x 3 x 2 x 2 situations: {(url, ext, key, ct): (run kind, [events])} where events are
+    `create:<request fn>` / `poll:<request fn>` of register_account / update_account_key / update_account_contacts in order"""
+    from ..absint import NONE, Val, marker, ok, run, some, struct_val, success_model, vstr
+    out = {}
+    for url in (False, True):
+        for ext in ("none", "same", "changed"):
+            for key in (False, True):
+                for ct in (False, True):
+                    acc_ep = struct_val(prog, ACCEP, {"account_url": vstr("URL" if url else ""), "external_account_hash": vstr("X0"), "contacts_hash": vstr("C0"), "key_hash": vstr("K0")})
+
+                    def ov(cs, args, ext=ext, key=key, ct=ct, acc_ep=acc_ep):
+                        n = cs.name or ""
+                        if n.endswith("Account::get_endpoint"):
+                            return ok(Val("ref", acc_ep))
+                        if n.endswith("hash_external_account"):
+                            return vstr("X1" if ext == "changed" else "X0")
+                        if n.endswith("hash_contacts"):
+                            return vstr("C1" if ct else "C0")
+                        if n.endswith("account::hash_key"):
+                            return ok(vstr("K1" if key else "K0"))
+                        return None
+                    acc = struct_val(prog, ACC, {"external_account": NONE if ext == "none" else some(marker("EXT"))})
+                    st = Val("adt", [Val("ref", acc), Val("ref", struct_val(prog, "acmed::endpoint::Endpoint", {"name": vstr("ep")}))], ("coroutine", "state"))
+                    r = run(sb, {1: st}, success_model(sb, ov), max_steps=80000)
+                    ev = []
+                    for c, a, res in r.calls:
+                        for fn in (REG, UPK, UPC):
+                            if c.is_(fn):
+                                ev.append("create:" + fn.rsplit("::", 1)[1])
+                            elif c.fn == "core::future::future::Future::poll" and c.res and c.res.startswith(fn + "::{closure"):
+                                ev.append("poll:" + fn.rsplit("::", 1)[1])
+                    out[(url, ext, key, ct)] = (r.kind, ev)
+    return out
